@@ -408,6 +408,45 @@ func InjectAt(r *rng.R, p *Program, idx int) (Injection, bool) {
 			f.Defs = append(f.Defs, d)
 			return "enum items aliasing values with labels of their own", true
 		}},
+		{"same-named-types-in-same-named-files", "A", func() (string, bool) {
+			// d1/shared.thrift and d2/shared.thrift both define Item; one package uses both — the
+			// first directly, the second through a typedef'd container of a third file. Helper names
+			// derived from (file base name, type name) alone would collide.
+			for _, f := range p.Files {
+				if f.Base() == "shared" || f.Base() == "nsmid" || f.Base() == "nshost" {
+					return "", false
+				}
+			}
+			mk := func(dir, field string) (*File, *Def) {
+				f := &File{Path: dir + "/shared.thrift"}
+				d := &Def{File: f, Name: "Item", Kind: Struct, Index: 1 << 20, Fields: []*Field{{ID: 1, Name: field, Req: Optional, Type: &Type{K: String}}}}
+				f.Defs = []*Def{d}
+				return f, d
+			}
+			f1, item1 := mk("nsd1", "from_one")
+			f2, item2 := mk("nsd2", "from_two")
+			mid := &File{Path: "nsmid.thrift", Includes: []*File{f2}}
+			items := &Def{File: mid, Name: "Items", Kind: Typedef, Index: 1 << 20, Target: &Type{K: List, Elem: &Type{K: Named, Ref: item2}}}
+			byKey := &Def{File: mid, Name: "ItemsByKey", Kind: Typedef, Index: 1 << 20, Target: &Type{K: Map, Key: &Type{K: String}, Elem: &Type{K: Named, Ref: item2}}}
+			mid.Defs = []*Def{items, byKey}
+			host := &File{Path: "nshost.thrift", Includes: []*File{f1, mid}}
+			host.Defs = []*Def{{File: host, Name: "Host", Kind: Struct, Index: 1 << 20, Fields: []*Field{
+				{ID: 1, Name: "direct", Req: Optional, Type: &Type{K: List, Elem: &Type{K: Named, Ref: item1}}},
+				{ID: 2, Name: "via_typedef", Req: Optional, Type: &Type{K: Named, Ref: items}},
+				{ID: 3, Name: "direct_map", Req: Optional, Type: &Type{K: Map, Key: &Type{K: String}, Elem: &Type{K: Named, Ref: item1}}},
+				{ID: 4, Name: "map_via_typedef", Req: Optional, Type: &Type{K: Named, Ref: byKey}}}}}
+			// dependency order: the new files before the root, which includes the host
+			root := p.Root
+			var files []*File
+			for _, f := range p.Files {
+				if f != root {
+					files = append(files, f)
+				}
+			}
+			p.Files = append(files, f1, f2, mid, host, root)
+			root.Includes = append(root.Includes, host)
+			return "two files named shared.thrift with a type Item each, both used in one package (one through typedef'd containers of a third file)", true
+		}},
 		{"D80-included-file-named-like-a-name-of-the-generated-file", "K:D80", func() (string, bool) {
 			// the package of an included file is imported under its own name; the generated file
 			// already uses that name for something else (the constant rawIDL, the type string)
